@@ -68,6 +68,7 @@ def histories(draw, tier):
                                   st.tuples(st.just("group"), st.integers(0, 6)).map(list),
                                   st.tuples(st.just("close-group"), st.integers(0, 6)).map(list),
                                   st.tuples(st.just("reiter"), st.integers(0, 6)).map(list),
+                                  st.just(["drop-groupby"]),
                                   st.just(["close-current"])),
                         min_size=draw(st.sampled_from([0, 4, 6])), max_size=15 if tier == "quick" else 25))
     if strict_mixed and draw(st.booleans()):
@@ -95,10 +96,13 @@ def check(case):
     flags = {"stale": False, "partial": False}
 
     async def history():
+        nonlocal gb_a, gb_s
         groups_a, groups_s = [], []
         closed = set()
         taken_from_current = 0
         for step, op in enumerate(case["ops"]):
+            if op[0] in ("gb", "reiter") and gb_a is None:
+                continue  # (the groupby object was dropped)
             if op[0] == "gb":
                 try:
                     ka, ga = await gb_a.__anext__()
@@ -128,6 +132,11 @@ def check(case):
                     groups_a.append(ga)
                     groups_s.append(gs)
                     taken_from_current = 0
+            elif op[0] == "drop-groupby":
+                # the consumer keeps only the groups (``key, group = await anext(groupby(...))``): a group goes on
+                # working without anybody holding the groupby object, as an itertools group does
+                if groups_a and gb_a is not None:
+                    gb_a = gb_s = None  # (reference counting is enough to let go of whatever only the groupby held)
             elif op[0] == "reiter":
                 # the consumer starts another loop over the same groupby / the same group (header first, then the
                 # rest): asking an iterator for its iterator changes nothing
